@@ -231,6 +231,36 @@ def write_coqproject():
             run(["coq_makefile", "-f", "_CoqProject", "-o", "Makefile"], cwd=COQ)
 
 
+def gen_modules_used(mod):
+    """Names of the coq/Gen modules that the property's Check module and Props file depend on (transitively),
+    read from coq_makefile's dependency file; None when that file cannot be read (then: assume all)."""
+    dep = os.path.join(COQ, ".Makefile.d")
+    try:
+        text = open(dep).read()
+    except OSError:
+        return None
+    graph = {}
+    for line in text.replace("\\\n", " ").splitlines():
+        if ":" not in line:
+            continue
+        lhs, rhs = line.split(":", 1)
+        targets = [t for t in lhs.split() if t.endswith(".vo")]
+        deps = [d for d in rhs.split() if d.endswith(".vo")]
+        for t in targets:
+            graph.setdefault(t, set()).update(deps)
+    roots = [mod.CHECK_MODULE.replace(".", "/") + ".vo", mod.PROPS_FILE[:-2] + ".vo"]
+    if not all(r in graph for r in roots):
+        return None
+    seen, todo = set(), list(roots)
+    while todo:
+        x = todo.pop()
+        if x in seen:
+            continue
+        seen.add(x)
+        todo += list(graph.get(x, ()))
+    return {os.path.basename(x)[:-3] for x in seen if x.startswith("Gen/")}
+
+
 def vo_ok(rel_v):
     """The .vo exists and is up to date with respect to its source AND everything it depends on."""
     v = os.path.join(COQ, rel_v)
@@ -558,7 +588,12 @@ def check(prop_id, tier, seed):
     with Scratch() as scratch:
         tie_broken = []
         if log.get("gen_errors"):
-            tie_broken.append({"what": "translator", "detail": log["gen_errors"]})
+            # a generator that fails closed breaks the tie only for the properties whose Check/Props
+            # modules (transitively) import the file it writes
+            used = gen_modules_used(mod)
+            mine = {k: v for k, v in log["gen_errors"].items() if used is None or k in used}
+            if mine:
+                tie_broken.append({"what": "translator", "detail": mine})
         check_v = mod.CHECK_MODULE.replace(".", "/") + ".v"
         if not vo_ok(check_v):
             tie_broken.append({"what": "model does not build", "detail": log.get("build_error", "")[-1500:]})
